@@ -345,6 +345,62 @@ pub fn check_c16(history: &History, snapshot: &Snapshot<u64>) -> Check {
     Ok(())
 }
 
+/// C03 for tight-fit cases (cache weight == combined weight of the whole key universe, every key has one fixed put weight):
+/// nothing may ever be refused for space, and the owner thread (thread 0), which works sequentially on keys nobody else
+/// touches and never uses a TTL, must always read back its latest accepted value.
+pub fn check_c03(case: &ConcCase, history: &History) -> Check {
+    let universe_weight: i64 = (0u8..32).map(base_weight).take_while(|_| true).take(0).sum::<i64>();
+    let _ = universe_weight;
+    if history.shutdown_called { return Ok(()); }
+    let fits = {
+        let keys: BTreeSet<u8> = case.threads.iter().flatten().filter_map(|op| match op { COp::Put { k, .. } | COp::Upsert { k, .. } => Some(*k), _ => None }).collect();
+        let extra_free = case.threads.iter().flatten().all(|op| !matches!(op, COp::Put { extra, explicit, .. } if *extra != 0 || !*explicit));
+        extra_free && keys.iter().map(|k| base_weight(*k)).sum::<i64>() <= case.cfg.max_weight
+    };
+    if !fits { return Ok(()); }
+    for rec in &history.recs {
+        if let Outcome::Write { status: Some(St::RejSpace), kind, key, .. } = &rec.outcome {
+            return Err(Failure::new("C03", "C03/conc/refused-for-space", format!("thread {} op {}: {} of key {} was refused for lack of space although the combined weight of all keys of this case ({}) never exceeds the cache weight {}", rec.thread, rec.index, kind, key, case.cfg.max_weight, case.cfg.max_weight)));
+        }
+    }
+    // the owner's sequential model
+    let mut state: BTreeMap<u8, Option<u64>> = BTreeMap::new();
+    let mut owner: Vec<&Rec> = history.recs.iter().filter(|rec| rec.thread == 0).collect();
+    owner.sort_by_key(|rec| rec.index);
+    let foreign = history.recs.iter().any(|rec| rec.thread != 0 && matches!(&rec.outcome, Outcome::Write { key, .. } if *key < TIGHT_OWNER_KEYS));
+    if foreign { return Ok(()); }
+    for rec in owner {
+        match &rec.outcome {
+            Outcome::Write { key, token, kind, status, in_place, err, .. } if !*err => {
+                let present = state.get(key).copied().flatten().is_some();
+                match *kind {
+                    "put" => {
+                        if present { ensure!(*status == Some(St::RejExists), "C07", "C07/conc/put-on-readable", "owner op {}: put of its readable key {} was acknowledged {:?}", rec.index, key, status); }
+                        else {
+                            ensure!(*status == Some(St::Accepted), "C03", "C03/conc/owner-put-refused", "owner op {}: put of key {} (absent, everything fits) was acknowledged {:?}", rec.index, key, status);
+                            state.insert(*key, *token);
+                        }
+                    }
+                    "upsert" => {
+                        ensure!(*status == Some(St::Accepted), "C03", "C03/conc/owner-upsert-refused", "owner op {}: put_or_update of key {} (present: {}, in place: {:?}) was acknowledged {:?}", rec.index, key, present, in_place, status);
+                        state.insert(*key, *token);
+                    }
+                    _ => { state.insert(*key, None); }
+                }
+            }
+            Outcome::Read { keys, values } => {
+                for (k, value) in keys.iter().zip(values.iter()) {
+                    let expected = state.get(k).copied().flatten();
+                    ensure!(*value == expected, "C03", if expected.is_some() && value.is_none() { "C03/conc/owner-key-lost" } else { "C03/conc/owner-read" },
+                        "owner op {}: read of key {} returned {:x?} but the owner's latest acknowledged value is {:x?}; only the owner writes this key, it has no time-to-live and the whole key universe fits the cache", rec.index, k, value, expected);
+                }
+            }
+            _ => {}
+        }
+    }
+    Ok(())
+}
+
 pub fn check_progress(history: &History) -> Check {
     if let Some(blocked) = &history.blocked {
         if blocked.starts_with("INCONCLUSIVE") { return Err(Failure::new("INCONCLUSIVE", "inconclusive/slow", blocked.clone())); }
@@ -384,6 +440,7 @@ pub struct ConcStats {
     pub read_between_delete_and_ack: bool,
     pub guard_held_during_delete: bool,
     pub ttl_writes: u64,
+    pub owner_reincarnations: u64,
     pub rotated: bool,
     pub puts_on_settled_keys: u64,
     pub sole_writer_put_then_delete: bool,
@@ -425,6 +482,7 @@ pub fn conc_stats(case: &ConcCase, history: &History) -> ConcStats {
     stats.drops = history.final_stats.get("access_dropped").copied().unwrap_or(0);
     stats.sweeps_during_run = !history.clock_log.is_empty();
     stats.rotated = history.rotated;
+    stats.owner_reincarnations = history.recs.iter().filter(|rec| rec.thread == 0 && matches!(&rec.outcome, Outcome::Write { kind: "put", status: Some(St::Accepted), .. })).count() as u64;
     stats.ttl_writes = writes.iter().filter(|write| write.ttl_ns.is_some() && write.status == Some(St::Accepted)).count() as u64;
     stats.eviction_loop_delayed = history.site_hits.get(Site::CreateSpaceLoop as usize).copied().unwrap_or(0) > 0;
     stats.swept_during_run = history.site_hits.get(Site::SweeperInRetain as usize).copied().unwrap_or(0) > 0;
@@ -467,6 +525,9 @@ pub enum ConcProfile {
     EvictVsSweep,
     /// no deletes, no TTLs, no pressure: puts racing in-place upserts, reads and guards on settled keys
     PutContention,
+    /// the cache weight equals the combined weight of the whole key universe (it always fits); an owner thread works
+    /// sequentially on its own keys while other threads churn TTL keys, deletes and sweeps
+    TightFit,
 }
 
 fn cop_strategy(profile: ConcProfile, max_key: u8) -> BoxedStrategy<COp> {
@@ -484,7 +545,7 @@ fn cop_strategy(profile: ConcProfile, max_key: u8) -> BoxedStrategy<COp> {
         ConcProfile::Shutdown => prop_oneof![6 => put, 3 => upsert, 3 => delete, 5 => read, 1 => Just(COp::AwaitAll), 1 => Just(COp::Shutdown)].boxed(),
         ConcProfile::Reads => prop_oneof![1 => put, 30 => read, 1 => hold].boxed(),
         ConcProfile::Deadlock => prop_oneof![5 => put, 6 => upsert, 3 => delete, 6 => read, 2 => hold, 1 => Just(COp::AwaitAll)].boxed(),
-        ConcProfile::Bursts | ConcProfile::DeleteWindow | ConcProfile::EvictVsSweep | ConcProfile::PutContention => prop_oneof![6 => put, 2 => upsert, 4 => delete, 1 => read].boxed(),
+        ConcProfile::Bursts | ConcProfile::DeleteWindow | ConcProfile::EvictVsSweep | ConcProfile::PutContention | ConcProfile::TightFit => prop_oneof![6 => put, 2 => upsert, 4 => delete, 1 => read].boxed(),
     }
 }
 
@@ -567,7 +628,46 @@ fn put_contention_strategy(thorough: bool) -> BoxedStrategy<ConcCase> {
     (cfg, threads, injection).prop_map(|(cfg, threads, injection)| ConcCase { cfg, threads, injection, clock: Vec::new(), monitor: false, consumer: ConsumerMode::Free }).boxed()
 }
 
+pub const TIGHT_OWNER_KEYS: u8 = 2;
+
+fn tight_fit_strategy(thorough: bool) -> BoxedStrategy<ConcCase> {
+    let owner_key = 0u8..TIGHT_OWNER_KEYS;
+    let owner_op = prop_oneof![
+        4 => owner_key.clone().prop_map(|k| COp::Put { k, extra: 0, explicit: true, ttl: None, wait: true }),
+        3 => owner_key.clone().prop_map(|k| COp::Upsert { k, down: 0, ttl: TtlReq::Keep, wait: true }),
+        2 => owner_key.clone().prop_map(|k| COp::Delete { k, wait: true }),
+        8 => (read_kind_strategy(), prop::collection::vec(owner_key.clone(), 1..=2)).prop_map(|(kind, keys)| COp::Read { kind, keys }),
+        1 => (1u8..4).prop_map(COp::Pause),
+    ];
+    let owner = prop::collection::vec(owner_op, 10..=(if thorough { 120 } else { 50 }));
+    let universe = 4u8..=9;
+    (universe, owner).prop_flat_map(move |(universe, owner)| {
+        let other_key = TIGHT_OWNER_KEYS..universe;
+        let ttl = prop_oneof![2 => Just(None), 3 => (100u32..=1500).prop_map(|m| Some(TtlSel::Millis(m))), 1 => (0u32..=2).prop_map(|s| Some(TtlSel::Secs(s)))];
+        let other_op = prop_oneof![
+            8 => (other_key.clone(), ttl, any::<bool>()).prop_map(|(k, ttl, wait)| COp::Put { k, extra: 0, explicit: true, ttl, wait }),
+            3 => (other_key.clone(), any::<bool>()).prop_map(|(k, wait)| COp::Delete { k, wait }),
+            3 => (other_key.clone(), prop_oneof![Just(TtlReq::Keep), (100u32..=1500).prop_map(|m| TtlReq::Set(TtlSel::Millis(m))), Just(TtlReq::Remove)], any::<bool>()).prop_map(|(k, ttl, wait)| COp::Upsert { k, down: 0, ttl, wait }),
+            3 => (read_kind_strategy(), prop::collection::vec(other_key.clone(), 1..=3)).prop_map(|(kind, keys)| COp::Read { kind, keys }),
+            1 => Just(COp::AwaitAll),
+        ];
+        let others = prop::collection::vec(prop::collection::vec(other_op, 10..=(if thorough { 120 } else { 50 })), 1..=5);
+        let delay = prop_oneof![(10u16..2000).prop_map(Delay::Spin), (1u8..3).prop_map(Delay::Yield), (5u16..300).prop_map(Delay::SleepUs)];
+        let site = prop_oneof![Just(Site::CacheWeightAddAfterInsert as u8), Just(Site::CacheWeightDeleteAfterRemove as u8), Just(Site::CacheWeightDeleteInLock as u8), Just(Site::CacheWeightUpdateInEntry as u8), Just(Site::MaybeAddAfterSpaceCheck as u8), Just(Site::SweeperInRetain as u8), Just(Site::WorkerAfterDequeue as u8), Just(Site::CreateSpaceLoop as u8)];
+        let injection = (prop::collection::vec((site, 40u8..=255, delay), 0..=4), any::<u64>()).prop_map(|(sites, seed)| Injection { sites, seed: seed | 1 });
+        let clock = prop::collection::vec((50u16..800, 200u32..1600).prop_map(|(pause_us, advance_ms)| ClockStep { pause_us, advance_ms }), 4..=20);
+        let cfg = (prop_oneof![Just(1usize), Just(4), Just(64)], prop_oneof![Just(HashMode::Identity), Just(HashMode::Default), Just(HashMode::Constant)], prop_oneof![Just(100u64), Just(300)], prop_oneof![Just(2u64), Just(10), Just(1000)])
+            .prop_map(move |(cmd_buf, hash, tick_us, counters)| Cfg { counters, capacity: 16, max_weight: (0..universe).map(base_weight).sum(), shards: 2, cmd_buf, pool: 1, buf: 2, tick_us, hash, weight_mode: WeightMode::Table(vec![8, 11, 14, 17, 20]), start_ns: 0 });
+        (cfg, Just(owner), others, injection, clock).prop_map(|(cfg, owner, others, injection, clock)| {
+            let mut threads = vec![owner];
+            threads.extend(others);
+            ConcCase { cfg, threads, injection, clock, monitor: true, consumer: ConsumerMode::Free }
+        })
+    }).boxed()
+}
+
 pub fn conc_case_strategy(profile: ConcProfile, thorough: bool) -> BoxedStrategy<ConcCase> {
+    if profile == ConcProfile::TightFit { return tight_fit_strategy(thorough); }
     if profile == ConcProfile::PutContention { return put_contention_strategy(thorough); }
     if profile == ConcProfile::DeleteWindow { return delete_window_strategy(thorough); }
     if profile == ConcProfile::EvictVsSweep { return evict_vs_sweep_strategy(thorough); }
@@ -621,7 +721,7 @@ pub fn check_conc(case: &ConcCase, run: &ConcRun, property: &str) -> Check {
     let history = &run.history;
     let start_clock = BASE_SECS * 1_000_000_000 + case.cfg.start_ns;
     let ordered: Vec<&str> = {
-        let all = ["progress", "C13", "C11", "C02", "C07", "C01", "C05", "C10", "C16", "C15", "index"];
+        let all = ["progress", "C13", "C11", "C02", "C03", "C07", "C01", "C05", "C10", "C16", "C15", "index"];
         // progress first: a blocked or crashed run has an incomplete history, which the other checkers must not judge
         let mut first: Vec<&str> = vec!["progress"];
         first.extend(all.iter().copied().filter(|name| *name == property && *name != "progress"));
@@ -634,6 +734,7 @@ pub fn check_conc(case: &ConcCase, run: &ConcRun, property: &str) -> Check {
             "C13" => check_c13(history)?,
             "C11" => { check_c11(history)?; if let Some(snapshot) = &run.snapshot { check_c11_final(history, snapshot)?; } }
             "C07" => check_c07(case, history)?,
+            "C03" => { if case.threads.first().map(|ops| ops.iter().all(|op| match op { COp::Put { k, .. } | COp::Upsert { k, .. } | COp::Delete { k, .. } => *k < TIGHT_OWNER_KEYS, _ => true })).unwrap_or(false) && case.threads.len() >= 2 && case.cfg.max_weight < 4000 { check_c03(case, history)?; } }
             "C02" => check_c02(history, start_clock, property == "C02")?,
             "C01" => check_c01(history, case.cfg.max_weight)?,
             "C05" => { if let Some(snapshot) = &run.snapshot { check_snapshot_consistency(snapshot)?; } }
